@@ -16,6 +16,8 @@ pub enum Value {
     Char(char),
     /// a non-literal expression that is a path, e.g. `a::b`
     PathExpr(String),
+    /// any other expression text (only ever aimed at conversions the model does not predict)
+    Raw(String),
 }
 
 #[derive(Clone, Debug, Serialize, Deserialize, PartialEq)]
@@ -173,7 +175,7 @@ impl Renderer {
             }
             Value::Bool(b) => self.push(if *b { "true" } else { "false" }),
             Value::Char(c) => self.push(&format!("'{}'", c)),
-            Value::PathExpr(p) => self.push(p),
+            Value::PathExpr(p) | Value::Raw(p) => self.push(p),
         }
         (a, self.pos())
     }
